@@ -81,6 +81,12 @@ def _r6(chk, repo, ci):
         fa = FnAlias(fn)
         inst = f"{ci.qual}.{name}"
         bad = [(r, a) for r, n_, a, k_ in fa.mutated_roots() if r == "self.samples" or r.startswith("self.samples.")]
+        # ... nor the collections handed to a statistic (the caller's list of other chains): a statistic that inserts into / reorders its argument gives a
+        # different answer when called again with the same objects
+        if name.startswith(("compute_", "mean", "median", "variance", "std", "ci_", "burnthin", "diagnostics", "to_arviz")) or name in ("Ns", "Nt"):
+            a_ = fn.args
+            own = {f"param:{q.arg}" for q in ([a_.vararg] if a_.vararg else []) + ([a_.kwarg] if a_.kwarg else [])} | {"param:self"}
+            bad += [(r, a) for r, n_, a, k_ in fa.mutated_roots() if r.startswith("param:") and r.split(".")[0] not in own]
         for c in ast.walk(fn):
             if isinstance(c, ast.Call) and isinstance(c.func, ast.Name) and len(funcs.get(c.func.id, [])) == 1:
                 g = funcs[c.func.id][0][1]
